@@ -714,7 +714,9 @@ def untargeted_oracle(m, ex):
             continue
         v = np.asarray(p.vals, dtype=float)
         used = i < ex["n_link"] or p._is_dynamic or p._precompute
-        if p.limits is not None and np.isfinite(v).all() and (used or id(p) in targeted):
+        # limits given in the wrong order (min > max: the generator can produce them, the library accepts them) leave no admissible value: the direct oracle has
+        # nothing to say there (the clip order is still compared through the model, `clipLim`)
+        if p.limits is not None and p.limits[0] <= p.limits[1] and np.isfinite(v).all() and (used or id(p) in targeted):
             bad = (v < p.limits[0] - 1e-12) | (v > p.limits[1] + 1e-12)
             if bad.any():
                 t = int(np.argmax(bad))
